@@ -178,7 +178,7 @@ def run_order(item):
     inst = None
     for op in order:
         if op in ('T', 'T2'):
-            inst = Inst(s_cur, cfg, seed=item.get('seed', 0), built=b)   # transcribes (or re-uses the transcription)
+            inst = Inst(s_cur, cfg, seed=item.get('seed', 0), built=b, solver=False)   # transcribes (or re-uses the transcription; declaring the solver again would invalidate it)
         else:
             name, val = newvals[op]
             sym = [p for p in s_cur.params if p.name == name][0]
@@ -186,7 +186,7 @@ def run_order(item):
             with quiet():
                 b.stage.set_value(b.psym[name], param_value(sym, cfg))
     if inst is None or order[-1] not in ('T', 'T2'):
-        inst = Inst(s_cur, cfg, seed=item.get('seed', 0), built=b)
+        inst = Inst(s_cur, cfg, seed=item.get('seed', 0), built=b, solver=False)
     rv = routing_violations(inst, s_cur, cfg)
     x0_after = list(inst.nlp.x0())
     fresh = Inst(s_cur, cfg, seed=item.get('seed', 0))
